@@ -221,7 +221,6 @@ macro_rules! c16_same_width_cmul {
             let (v, f) = x.overflowing_mul(y); let (v2, f2) = x2.overflowing_mul(y2); assert!(same(v, v2) && f == f2, "mul");
             match (x.checked_div(y), x2.checked_div(y2)) { (Some(p), Some(q)) => assert!(same(p, q), "div"), (None, None) => {}, _ => assert!(false, "div: Some/None differs") }
             match (x.checked_rem(y), x2.checked_rem(y2)) { (Some(p), Some(q)) => assert!(same(p, q), "rem"), (None, None) => {}, _ => assert!(false, "rem: Some/None differs") }
-            match (y.checked_div(x), y2.checked_div(x2)) { (Some(p), Some(q)) => assert!(same(p, q), "concrete dividend / symbolic divisor"), (None, None) => {}, _ => assert!(false, "div: Some/None differs") }
             $crate::reach!(f, "overflowing product");
             $crate::reach!(!f, "representable product");
         });
